@@ -306,6 +306,10 @@ def run_task(task):
             if not case["tracked"]:
                 bump("untracked_discontinuities")
                 continue
+            if not np.isfinite(np.concatenate([case["L"][:3], case["R"][:3]])).all():
+                # a NaN/inf state next to a discontinuity is C20's business (e.g. black-box Noh "converging" to NaN)
+                bump("nonfinite_state_cases")
+                continue
             bump("cases:" + case["kind"])
             r = dict(case["res"])
             if name == "BBNoh" and list(cfg.get("ic")) != [1, -1, 0]:
